@@ -21,7 +21,7 @@ var commonAssume = []string{
 }
 
 func init() {
-	register(&propDef{id: "C19", pristine: true, level: "exploration", quickRuns: 30000, thorRuns: 1500000, quickS: 40, thorS: 600, chunk: 300, pre: c19Pre,
+	register(&propDef{id: "C19", rorder: true, pristine: true, level: "exploration", quickRuns: 30000, thorRuns: 1500000, quickS: 40, thorS: 600, chunk: 300, pre: c19Pre,
 		rule:   "per invocation a corpus of (path, config) calls is drawn (400 quick / 4000 thorough: valid paths of every step kind, 23 templates failing in each parser action, an internal-panic path, function-not-found combinations; configs with every function subset, accessor mode, no config) and every item is executed as the FIRST call of a fresh OS process linked with the pristine tree; each run is a history of 2-10 calls per task (1-4 tasks) drawn from the corpus, some hit by an injected panic at a drawn call site inside Parse, some made with one long-lived Config value that is then modified (every function replaced, accessor mode set); the outcome of every call (nil-ness, error type and text, results and callback logs of the returned function on three probe documents) must equal the fresh-process outcome; functions parsed before a Config modification are re-probed afterwards; a case is (path, config); distinct = distinct hash",
 		assume: append([]string{"the fresh-process reference is the pristine (un-instrumented) build of the current tree; the instrumented build with the simulator inert is required to agree with it item by item, otherwise the check ends with status 2"}, commonAssume...)})
 	register(&propDef{id: "C13", level: "exploration", quickRuns: 30000, thorRuns: 1500000, quickS: 35, thorS: 400, chunk: 300,
@@ -39,7 +39,7 @@ func init() {
 	register(&propDef{id: "C04", level: "exploration", quickRuns: 40000, thorRuns: 2000000, quickS: 35, thorS: 600, chunk: 400,
 		rule:   "each run: 1-8 tasks evaluate generated paths (70% built around a filter combining ==, !=, <, &&, ||, !, regex over present, missing and $-rooted operands; the rest from the general path generator) on 1-4 shared generated documents, through shared parsed functions and through Retrieve, with and without accessor mode (Set never called), callbacks failing by plan; after every completed operation every document is deep-compared (type-tagged) with its snapshot; a case is (path, first document) and counts as non-trivial when the path contains a filter or function; distinct = distinct hash",
 		assume: commonAssume})
-	register(&propDef{id: "C05", level: "exploration", quickRuns: 40000, thorRuns: 2000000, quickS: 35, thorS: 600, chunk: 400,
+	register(&propDef{id: "C05", rorder: true, level: "exploration", quickRuns: 40000, thorRuns: 2000000, quickS: 35, thorS: 600, chunk: 400,
 		rule:   "each run: 1-4 tasks, each parses one generated path (every step kind, filters, functions) and calls it 2-8 times on a family of generated documents, interleaved with unrelated Parse/Retrieve, scribbling and appending to earlier results, under a drawn pool policy / map order / schedule; a case is (path, config, base document) and is non-trivial when the path parsed and at least one call was judged against a freshly parsed reference; distinct = distinct hash of that triple",
 		assume: commonAssume})
 }
